@@ -16,6 +16,7 @@ import glob
 import json
 import os
 import re
+import random
 
 from common import (Check, run_impl, standard_proof_step, coq_bad_matrix, BuildError, cbool, TRUSTED_COMMON, ROOT, COQ)
 import genmodels as G
@@ -56,6 +57,8 @@ class Root:
     sa: list[int] = field(default_factory=list, metadata={"type": "Element", "sequence": 1})
     sb: Optional[str] = field(default=None, metadata={"type": "Element", "sequence": 1})
     sc: list[Child] = field(default_factory=list, metadata={"type": "Element", "sequence": 1})
+    sn: Optional[int] = field(default=None, metadata={"type": "Element", "nillable": True, "sequence": 2})
+    sl: list[str] = field(default_factory=list, metadata={"type": "Element", "nillable": True, "sequence": 2})
     nz: Optional[int] = field(default=None, metadata={"type": "Element", "nillable": True})
     nb: Optional[bool] = field(default=None, metadata={"type": "Element", "nillable": True})
     nl: list[str] = field(default_factory=list, metadata={"type": "Element", "nillable": True})
@@ -82,6 +85,7 @@ INST_RICH = {"__cls__": "Root", "fields": {
     "sb": {"__p__": "str", "v": "mid"},
     "sc": [{"__cls__": "Child", "fields": {"value": {"__p__": "int", "v": 9}, "flag": None, "tags": []}},
            {"__cls__": "Child", "fields": {"value": None, "flag": {"__p__": "bool", "v": True}, "tags": []}}],
+    "sn": None, "sl": [{"__p__": "str", "v": "p"}, {"__p__": "str", "v": "q"}],
     "nz": {"__p__": "int", "v": 0}, "nb": {"__p__": "bool", "v": False},
     "nl": [{"__p__": "str", "v": "a"}, {"__p__": "str", "v": "b c"}], "nn": None,
     "nc": {"__cls__": "Child", "fields": {"value": {"__p__": "int", "v": 0}, "flag": {"__p__": "bool", "v": True}, "tags": []}},
@@ -288,7 +292,8 @@ Import ListNotations.
 (* model `rich` (see harness/c01.py WITNESS_RICH): attributes (optional int, namespaced str with a
    default, int tokens), elements (str, unqualified str holding '', int list, token list, list of
    token lists, nested simple-content class, a wrapped list of it, an empty wrapped list, a sequence
-   group of an int list, an optional str and a class list, nillable int / bool fields holding the falsy
+   group of an int list, an optional str and a class list, a second sequence group of a nillable int field holding None
+   (written <sn xsi:nil="true"/> in round 0) and a nillable str list, nillable int / bool fields holding the falsy
    values 0 / False, a nillable str list and a nillable str field holding None, written
    <nn xsi:nil="true"/>, a nillable field of class type holding an instance with content and another one
    holding None, a list of instances with content of a nillable class, two xs:anyType elements holding a str
@@ -451,6 +456,7 @@ GUARD_PREDS = {
     "in_guard_recursive": "fun k => negb (in_guard_w k && uses_recursion (rc_universe k))",
     "in_guard_xsi": "fun k => negb (in_guard_w k && uses_xsi_type k)",
     "in_guard_nillable": "fun k => negb (in_guard_w k && uses_nillable (rc_universe k))",
+    "in_guard_nillable_seq": "fun k => negb (in_guard_w k && uses_nillable_in_sequence (rc_universe k))",
     "in_guard_nillable_class": "fun k => negb (in_guard_w k && uses_nillable_class (rc_universe k))",
     "in_guard_anytype": "fun k => negb (in_guard_w k && uses_anytype (rc_universe k) (rc_cls k))",
     "in_guard_maps": "fun k => negb (in_guard_w k && uses_maps (rc_universe k) (rc_cls k))",
@@ -504,6 +510,7 @@ def guard_layer(ck, jobs, stats):
     stats["guard_inside_with_recursive_class"] = len(bad["in_guard_recursive"])
     stats["guard_inside_with_subclass_instance"] = len(bad["in_guard_xsi"])
     stats["guard_inside_with_nillable_field"] = len(bad["in_guard_nillable"])
+    stats["guard_inside_with_nillable_field_in_sequence_group"] = len(bad["in_guard_nillable_seq"])
     stats["guard_inside_with_nillable_class"] = len(bad["in_guard_nillable_class"])
     stats["guard_inside_with_anytype_element"] = len(bad["in_guard_anytype"])
     stats["guard_inside_with_attribute_map"] = len(bad["in_guard_maps"])
@@ -736,6 +743,24 @@ def group_scalar_wildcards(r, m, v):
                                                        "children": [first] + sibs}}
         else:
             group_scalar_wildcards(r, m, x)
+
+
+def nil_sequence_scalars(r, m, v):
+    """nillable scalar fields inside a sequence group: None is written <f xsi:nil="true"/> in round 0 of the rolling loop
+    (next_value: `values is not None or var.nillable`); genmodels rarely leaves them None (own mutation m13)"""
+    if isinstance(v, list):
+        for x in v:
+            nil_sequence_scalars(r, m, x)
+        return
+    if not isinstance(v, dict) or "fields" not in v:
+        return
+    c = G.find_class(m, v["__cls__"])
+    for f in G.all_fields(m, c):
+        if f["kind"] == "Element" and f.get("nillable") and f.get("sequence") is not None and not f.get("list") \
+                and not f.get("tokens") and v["fields"].get(f["name"]) is not None and r.random() < 0.5:
+            v["fields"][f["name"]] = None
+        else:
+            nil_sequence_scalars(r, m, v["fields"].get(f["name"]))
 
 
 def pad_any_text(r, v):
@@ -1037,9 +1062,11 @@ def run(ck: Check):
         insts = [G.gen_instance(r, m, m["root"]) for _ in range(4)]
         add_recursion(r, m, insts)
         add_subclass(r, m, insts)
+        r2 = random.Random(f"nilseq-{ck.seed}-{k}")      # own stream: the main one keeps generating the same models
         for inst in insts:
             group_scalar_wildcards(r, m, inst)
             pad_any_text(r, inst)
+            nil_sequence_scalars(r2, m, inst)
         cases = []
         for i in range(len(insts)):
             for _ in range(3):
